@@ -125,7 +125,7 @@ static double pickY(vh::Rng& g, int kind, bool ints) {
     if (ints) return g.smallInt(-4, 4);
     if (r == 0) return 0.0;                                   // zero: the YMin branch
     if (r == 1) return g.signedMag(1e-3, 0.1);               // below YMin
-    if (r == 2 && kind != 2) return g.signedMag(1e2, 1e4);   // large values
+    if (r == 2) return g.signedMag(1e2, 1e4);                // large values (exponential family: diffCase rescales the exponent)
     return g.signedMag(0.1, 5);
 }
 
@@ -184,18 +184,26 @@ static void apiRouteCase(vh::Rng& g) {
     apiRouteRun(shape, route, nf, n, g.next() >> 12);
 }
 
-static void diffCase(vh::Rng& g) {
-    int shape = g.below(3);                      // 0 scalar fn, 1 gradient fn, 2 jacobian fn
+static int g_colsJudged = 0, g_defaultCentralOmitted = 0;
+// force*: guaranteed classes (main): function shape, API route, default method of the Differentiator, method argument omitted
+static void diffCase(vh::Rng& g, int fShape = -1, int fRoute = -1, int fDflt = -1, bool fOmit = false) {
+    int shape = fShape >= 0 ? fShape : g.below(3);                      // 0 scalar fn, 1 gradient fn, 2 jacobian fn
     int kind = g.below(3);
     bool ints = (kind == 0) && g.below(3) == 0;
     int polyDeg = 1 + g.below(3);
     int n = (shape == 0) ? 1 : 1 + g.below(g.below(4) == 0 ? 20 : 6);
     int nf = (shape == 2) ? 1 + g.below(g.below(4) == 0 ? 10 : 4) : 1;
+    if (fRoute == 0) { n = 1; nf = 1; } else if (fRoute == 1) nf = 1;
     FnSpec s = makeSpec(g, kind, n, nf, polyDeg, ints);
     static const double accs[] = {-1, -1, 1e-10, 1e-6, 1e-3};
     double accIn = accs[g.below(5)];
     std::vector<double> y0(n); for (int i = 0; i < n; ++i) y0[i] = pickY(g, kind, ints);
-    int dflt = g.below(3), m = g.below(3);
+    // exponential of a linear form at a large evaluation point: keep the exponent moderate (a_i <- a_i/|y_i|)
+    if (kind == 2) for (int i = 0; i < n; ++i) if (std::fabs(y0[i]) > 50) for (int k = 0; k < nf; ++k) s.A[k * n + i] /= std::fabs(y0[i]);
+    int dflt = fDflt >= 0 ? fDflt : g.below(3), m = fOmit ? 0 : g.below(3);
+    // m == 0 is UnspecifiedMethod: the Differentiator's default method applies.  Half of those calls (and all forced ones) leave the
+    // method argument out altogether (the declared default argument), the others pass UnspecifiedMethod explicitly.
+    bool omit = fOmit || (m == 0 && g.coin());
     bool slow = g.coin();
     SFn sf(s, accIn); GFn gf(s, accIn); JFn jf(s, accIn);
     const Differentiator::Function& fn = shape == 0 ? (const Differentiator::Function&)sf : shape == 1 ? (const Differentiator::Function&)gf : (const Differentiator::Function&)jf;
@@ -208,9 +216,22 @@ static void diffCase(vh::Rng& g) {
     g_log.clear();
     // choose an API route valid for this shape
     std::string route;
-    int r = g.below(3);
+    int r = fRoute >= 0 ? fRoute : g.below(3);
     auto M = (Differentiator::Method)m;
-    if (n == 1 && nf == 1 && r == 0) {        // every function shape (Gradient/JacobianFunction routes were finding F-C40a, fixed 3b01da75)
+    if (omit) {
+        if (n == 1 && nf == 1 && r == 0) {
+            route = "derivative";
+            if (slow) J(0, 0) = diff.calcDerivative(y0[0]); else { Real d; diff.calcDerivative(y0[0], fy0[0], d); J(0, 0) = d; }
+        } else if (nf == 1 && r <= 1) {
+            route = "gradient";
+            Vector grad;
+            if (slow) grad = diff.calcGradient(Y0); else diff.calcGradient(Y0, fy0[0], grad);
+            for (int i = 0; i < n; ++i) J(0, i) = grad[i];
+        } else {
+            route = "jacobian";
+            if (slow) J = diff.calcJacobian(Y0); else diff.calcJacobian(Y0, FY0, J);
+        }
+    } else if (n == 1 && nf == 1 && r == 0) {        // every function shape (Gradient/JacobianFunction routes were finding F-C40a, fixed 3b01da75)
         route = "derivative";
         if (slow) J(0, 0) = diff.calcDerivative(y0[0], M); else { Real d; diff.calcDerivative(y0[0], fy0[0], d, M); J(0, 0) = d; }
     } else if (nf == 1 && r <= 1) {           // incl. JacobianFunction + calcGradient with n >= 2 (finding F-C40b, fixed 3b01da75)
@@ -232,6 +253,8 @@ static void diffCase(vh::Rng& g) {
     std::string key = "diff." + std::string(kind == 0 ? (polyDeg == 1 ? "affine" : polyDeg == 2 ? "quadratic" : "cubic") : kind == 1 ? "sin" : "exp") +
                       (order == 1 ? ".forward" : ".central");
     emitMethod(m, dflt, order);
+    vh::D(std::string("method.") + (omit ? "omitted" : m == 0 ? "unspecified" : "explicit") + ".default" + std::to_string(dflt) + "." + route);
+    if (omit && dflt == 2) ++g_defaultCentralOmitted;
     vh::P("call_count", key + ".calls", std::abs(ncalls - order * n) + std::abs(diff.getNumCallsToUserFunction() - (int)g_log.size()), 0);
     if (slow) {
         double dd = 0; for (int i = 0; i < n; ++i) dd += std::fabs(g_log[0].y[i] - y0[i]);
@@ -268,9 +291,14 @@ static void diffCase(vh::Rng& g) {
             double F = s.fabsSum(y0.data(), k, h);
             double round = (order == 1 ? 2 : 1) * 8 * EPS * F / h + 8 * EPS * std::fabs(truth);
             double err = std::fabs(J(k, i) - truth);
+            // (factor 1.01 on the truncation term: the bound is attained to 0.990 on cubics/central, so a refactoring that changes h
+            //  by 1 % would alarm - deliberate)
             vh::P("derivative_error", key + ".err", err / (1.01 * trunc + round + 1e-300), 1.0);
-            // the documented a-priori bound: order-p truncation + (stated accuracy)*|f|/h
-            // (only meaningful when the stated accuracy is not below the true rounding of f)
+            // the documented a-priori bound (theorems forward_total_error / central_total_error): order-p truncation +
+            // (stated accuracy)*|f|/h, i.e. delta = acc*F in forward_error_bound / central_error_bound.  Weaker than the line
+            // above whenever the stated accuracy is not below the true rounding of f (always, for the accuracies generated).
+            vh::P("derivative_apriori_bound", key + ".apriori", err / (1.01 * trunc + (order == 1 ? 2 : 1) * acc * F / h + 8 * EPS * std::fabs(truth) + 1e-300), 1.0);
+            ++g_colsJudged;
         }
     }
 }
@@ -318,5 +346,13 @@ int main(int argc, char** argv) {
     if (args.mode == "replay") { replay(); return 0; }
     vh::Rng g(args.seed * 7919 + 40);
     for (long k = 0; k < args.n; ++k) { if (g.below(12) == 0) apiRouteCase(g); else diffCase(g); }
+    // guaranteed classes: default method CentralDifference with the method argument omitted, for every function shape and every
+    // API route valid for it (the forced route fixes the shape of the function: derivative 1x1, gradient nf = 1)
+    for (int shape = 0; shape < 3; ++shape) for (int route = 0; route < 3; ++route) for (int rep = 0; rep < 2; ++rep) diffCase(g, shape, route, 2, true);
+    for (int shape = 0; shape < 3; ++shape) diffCase(g, shape, 2, 1, true);      // and default Forward
+    // coverage floor (X1)
+    emitMethod(0, 2, 2);
+    vh::P("coverage_floor", "c40.floor.columns_judged", std::max(0.0, 20 + 0.8 * (double)args.n - g_colsJudged), 0);
+    vh::P("coverage_floor", "c40.floor.default_central_method_omitted", std::max(0.0, 18.0 - g_defaultCentralOmitted), 0);
     return 0;
 }
